@@ -8,9 +8,6 @@ import (
 	"regexp"
 	"time"
 
-	"github.com/gogo/protobuf/proto"
-
-	abci "github.com/tendermint/tendermint/abci/types"
 	"github.com/tendermint/tendermint/crypto/merkle"
 	tmbytes "github.com/tendermint/tendermint/libs/bytes"
 	tmmath "github.com/tendermint/tendermint/libs/math"
@@ -402,6 +399,14 @@ func (c *Client) BlockResults(ctx context.Context, height *int64) (*ctypes.Resul
 	if res.Height <= 0 {
 		return nil, errNegOrZeroHeight
 	}
+	if res.Height != h {
+		return nil, fmt.Errorf("block results are for height %d, requested %d", res.Height, h)
+	}
+	for i, txRes := range res.TxsResults {
+		if txRes == nil {
+			return nil, fmt.Errorf("nil tx result %d", i)
+		}
+	}
 
 	// Update the light client if we're behind.
 	nextHeight := h + 1
@@ -410,27 +415,11 @@ func (c *Client) BlockResults(ctx context.Context, height *int64) (*ctypes.Resul
 		return nil, err
 	}
 
-	// proto-encode BeginBlock events
-	bbeBytes, err := proto.Marshal(&abci.ResponseBeginBlock{
-		Events: res.BeginBlockEvents,
-	})
-	if err != nil {
-		return nil, err
-	}
-
-	// Build a Merkle tree of proto-encoded DeliverTx results and get a hash.
-	results := types.NewResults(res.TxsResults)
-
-	// proto-encode EndBlock events.
-	ebeBytes, err := proto.Marshal(&abci.ResponseEndBlock{
-		Events: res.EndBlockEvents,
-	})
-	if err != nil {
-		return nil, err
-	}
-
-	// Build a Merkle tree out of the above 3 binary slices.
-	rH := merkle.HashFromByteSlices([][]byte{bbeBytes, results.Hash(), ebeBytes})
+	// The header at height h+1 commits to the results of block h the way the
+	// state machine computes LastResultsHash (see state.ABCIResponsesResultsHash):
+	// a Merkle tree over the deterministic fields of the DeliverTx results only.
+	// BeginBlock and EndBlock events are not part of it.
+	rH := types.NewResults(res.TxsResults).Hash()
 
 	// Verify block results.
 	if !bytes.Equal(rH, trustedBlock.LastResultsHash) {
